@@ -13,3 +13,4 @@ import RSVerif.Properties.C03
 #print axioms RS.simd_block_butterflies
 #print axioms RS.flat_butterflies_refine
 #print axioms RS.flat_transforms_refine
+#print axioms RS.source_engine_loops_are_model
